@@ -16,6 +16,7 @@ fn main() -> ExitCode {
     let out = PathBuf::from(&args[4]);
     let only = args.get(5).map(String::as_str);
     let run: Run = match prop {
+        "C01" => rosu_verif::c01::run(tier, seed, only),
         "C02" => rosu_verif::c02::run(tier, seed, only),
         "C03" => rosu_verif::c03::run(tier, seed, only),
         "C04" => rosu_verif::c04::run(tier, seed, only),
@@ -25,6 +26,7 @@ fn main() -> ExitCode {
         "C15" => rosu_verif::c15::run(tier, seed, only),
         "C18" => rosu_verif::c18::run(tier, seed, only),
         "C19" => rosu_verif::c19::run(tier, seed, only),
+        "C20" => rosu_verif::c20::run(tier, seed, only),
         _ => {
             eprintln!("unknown property {prop}");
             return ExitCode::from(2);
